@@ -105,10 +105,10 @@ fn run_stream(lens: &[usize], chunk: usize, code: u16) -> Option<String> {
 /// the other body sources of known length: static text, static bytes, a file
 fn run_kind(kind: &str, body_len: usize, chunk: usize) -> Option<String> {
     let desc = format!("source kind={kind} body_len={body_len} write_chunk={chunk}");
-    let body: Vec<u8> = (0..body_len).map(|i| b'a' + (i % 26) as u8).collect();
+    let body: Vec<u8> = if kind == "static_utf8" { "h\u{e9}llo \u{20ac} w\u{f6}rld \u{1F600} ".repeat(body_len / 20 + 1).into_bytes() } else { (0..body_len).map(|i| b'a' + (i % 26) as u8).collect() };
     let dir = std::env::temp_dir().join(format!("verif-c06-{}", std::process::id()));
     let rb = match kind {
-        "static_str" => ResponseBody::StaticStr(Box::leak(String::from_utf8(body.clone()).unwrap().into_boxed_str())),
+        "static_str" | "static_utf8" => ResponseBody::StaticStr(Box::leak(String::from_utf8(body.clone()).unwrap().into_boxed_str())),
         "static_bytes" => ResponseBody::StaticBytes(Box::leak(body.clone().into_boxed_slice())),
         _ => { std::fs::create_dir_all(&dir).unwrap(); let p = dir.join(format!("f{body_len}")); std::fs::write(&p, &body).unwrap(); ResponseBody::File(p, body_len as u64) }
     };
@@ -153,6 +153,8 @@ fn stream_cases() -> Vec<(Vec<usize>, usize, u16)> {
 fn kind_cases() -> Vec<(&'static str, usize, usize)> {
     let mut v = Vec::new();
     for k in ["static_str", "static_bytes", "file"] { for bl in [0usize, 1, 65535, 65536, 65537, 200000] { for ch in [usize::MAX, 4099] { v.push((k, bl, ch)); } } }
+    // text bodies that are not ASCII: the length is the number of bytes, not of characters
+    for bl in [1usize, 100, 1000, 1100, 70000] { for ch in [usize::MAX, 5] { v.push(("static_utf8", bl, ch)); } }
     v
 }
 fn replay_extra(key: &str) -> bool {
